@@ -7,7 +7,7 @@
    mirror the C++ code; Spec functions (C10.Spec) are positional notation and the
    [charconv] / C strtol / [string.conversions] contracts. *)
 From Tetl Require Import Lib.Base C10.Model C10.Spec C10.Digits C10.ProofsFmt C10.ProofsParse
-  C10.ProofsRT C10.ProofsStrto C10.Refuted.
+  C10.ProofsRT C10.ProofsStrto C10.ProofsStrtoC C10.Refuted.
 Local Open Scope Z_scope.
 
 (** ** The specification's numeral is positional notation (spec sanity) *)
@@ -105,37 +105,40 @@ Theorem C10_spec_roundtrip : forall t v b, in_ty t v = true -> 2 <= b <= 36 ->
 Proof. exact spec_roundtrip. Qed.
 Print Assumptions C10_spec_roundtrip.
 
-(** ** strtol strtoll strtoul strtoull: the C contract outside the recorded defect regions *)
-Theorem C10_strto_correct : forall t s b, 8 <= bits t -> 2 <= b <= 36 -> strto_region t b s = false ->
+(** ** strtol strtoll strtoul strtoull (detail::strto_integer after fix commits 0adfefc, cdcca26,
+       de18be3, 387b57b): the whole of C17 7.22.1.4 for EVERY character sequence and every base
+       0, 2..36 — white space, sign, 0x/0X and 0 prefixes, value saturated at the limits of the
+       result type, minus sign negating in the unsigned type, end behind the last digit (at the
+       start when there are no digits).  t ranges over the result types of at least 32 bits
+       (int, long, long long and their unsigned versions). *)
+Theorem C10_strto_correct : forall t s b, 32 <= bits t -> b = 0 \/ 2 <= b <= 36 ->
   strto_m t s b = Ok (strto_spec t b s).
 Proof. exact strto_correct. Qed.
 Print Assumptions C10_strto_correct.
 
-Theorem C10_strto_base0_refuted : exists t s,
-  strto_m t s 0 = UB DivByZero /\ strto_spec t 0 s = (12, 2%nat) /\ strto_region t 0 s = true.
-Proof. exact strto_base0_refuted. Qed.
-Print Assumptions C10_strto_base0_refuted.
+(* the same with the error member: invalid_input iff there is no digit, overflow iff the value had
+   to be clamped (the library has no errno; this is its ERANGE) *)
+Theorem C10_strto_integer_correct : forall t s b, 32 <= bits t -> b = 0 \/ 2 <= b <= 36 ->
+  strto_integer_m t s b = Ok (snd (strto_spec t b s), ti_of (strto_class t b s), fst (strto_spec t b s)).
+Proof. exact strto_integer_correct. Qed.
+Print Assumptions C10_strto_integer_correct.
 
-Theorem C10_strto_hex_prefix_refuted : exists t s r,
-  strto_m t s 16 = Ok r /\ strto_spec t 16 s <> r /\ strto_region t 16 s = true.
-Proof. exact strto_hex_prefix_refuted. Qed.
-Print Assumptions C10_strto_hex_prefix_refuted.
+(* a base C does not define: no conversion, no undefined behaviour *)
+Theorem C10_strto_bad_base : forall t s b, b < 0 \/ b = 1 \/ 36 < b -> strto_m t s b = Ok (0, 0%nat).
+Proof. exact strto_bad_base. Qed.
+Print Assumptions C10_strto_bad_base.
 
-Theorem C10_strto_no_saturation_refuted : exists t s r,
-  strto_m t s 10 = Ok r /\ strto_spec t 10 s <> r /\ strto_region t 10 s = true.
-Proof. exact strto_no_saturation_refuted. Qed.
-Print Assumptions C10_strto_no_saturation_refuted.
-
-Theorem C10_strtou_minus_refuted : exists t s r,
-  sgn t = false /\ strto_m t s 10 = Ok r /\ strto_spec t 10 s <> r /\ strto_region t 10 s = true.
-Proof. exact strtou_minus_refuted. Qed.
-Print Assumptions C10_strtou_minus_refuted.
-
-(** ** stoi stol stoll stoul stoull: (value, *pos) of [string.conversions] whenever std does not throw *)
-Theorem C10_sto_correct : forall t s b r, 8 <= bits t -> 2 <= b <= 36 -> sto_region t b s = false ->
+(** ** stoi stol stoll stoul stoull: (value, *pos) of [string.conversions] whenever std does not
+       throw; where std throws the etl functions (no exceptions) return what strtol returns *)
+Theorem C10_sto_correct : forall t s b r, 32 <= bits t -> b = 0 \/ 2 <= b <= 36 ->
   sto_spec t b s = Some r -> strto_m t s b = Ok r.
 Proof. exact sto_correct. Qed.
 Print Assumptions C10_sto_correct.
+
+Theorem C10_sto_no_throw : forall t s b, 32 <= bits t -> b = 0 \/ 2 <= b <= 36 ->
+  sto_spec t b s = None -> strto_m t s b = Ok (strto_spec t b s) /\ strto_class t b s <> SOk.
+Proof. exact sto_no_throw. Qed.
+Print Assumptions C10_sto_no_throw.
 
 (** ** atoi atol atoll: the value of strtol(s, NULL, 10) whenever it is representable *)
 Theorem C10_ato_correct : forall t s v, 8 <= bits t -> sgn t = true -> ato_spec t s = Some v ->
@@ -150,8 +153,12 @@ Example C10_nonvacuous :
   /\ to_chars_spec 16 (-255) 3 = Some [45; 102; 102] /\ to_chars_spec 16 (-255) 2 = None
   /\ from_chars_m i8 [45; 49; 50; 56; 32] 10 7 = Ok (FcOk, 4%nat, -128)
   /\ from_chars_m i8 [49; 50; 56] 10 7 = Ok (FcRange, 0%nat, 7)
-  /\ strto_region i64 10 [32; 43; 53; 120] = false /\ strto_m i64 [32; 43; 53; 120] 10 = Ok (5, 3%nat)
-  /\ sto_spec i32 10 [45; 52; 50] = Some (-42, 3%nat) /\ sto_region i32 10 [45; 52; 50] = false
+  /\ strto_m i64 [32; 43; 53; 120] 10 = Ok (5, 3%nat)
+  /\ strto_m i64 [45; 48; 120; 49; 65; 103] 0 = Ok (-26, 5%nat)          (* strtol("-0x1Ag", &e, 0) *)
+  /\ strto_m u64 [45; 49] 10 = Ok (18446744073709551615, 2%nat)          (* strtoul("-1") *)
+  /\ strto_m i32 [45; 57; 57; 57; 57; 57; 57; 57; 57; 57; 57; 57] 10 = Ok (-2147483648, 12%nat)
+  /\ strto_class i32 10 [45; 57; 57; 57; 57; 57; 57; 57; 57; 57; 57; 57] = SRange
+  /\ sto_spec i32 10 [45; 52; 50] = Some (-42, 3%nat) /\ sto_spec i32 10 [120] = None
   /\ ato_spec i32 [52; 50; 120] = Some 42
   /\ to_string_m i32 3 123 = Ok [49; 50; 51] /\ to_string_m i32 2 123 = Contract.
 Proof. vm_compute. repeat split; congruence. Qed.
